@@ -355,3 +355,40 @@ def edgeless_sample_mutation():
 
 
 S2["edgeless_sample_mutation"] = edgeless_sample_mutation
+
+
+def two_mrcas_root_muts():
+    """two trees with different roots 6 (time 3) and 7 (time 2); mutations above both roots,
+    above internal nodes, two mutations at one site, and a site without mutations."""
+    return _ts(10, [(1, 0)] * 4 + [(0, 1), (0, 1.2), (0, 3), (0, 2)],
+               [(0, 10, 4, 0), (0, 10, 4, 1), (0, 10, 5, 2), (0, 10, 5, 3),
+                (0, 4, 6, 4), (0, 4, 6, 5), (4, 10, 7, 4), (4, 10, 7, 5)],
+               [1, 2, 3, 6, 7, 8], [(0, 6), (1, 4), (3, 7), (4, 5), (4, 0), (5, 2)])
+
+
+S2["two_mrcas_root_muts"] = two_mrcas_root_muts
+
+
+def root_pieces():
+    """the root 4 is present on [0,3) and [6,10) (root 5 in between); mutations sit above the
+    root in both pieces and above node 3."""
+    e = []
+    for l, r in ((0, 3), (6, 10)):
+        e += [(l, r, 4, 3), (l, r, 4, 2)]
+    e += [(3, 6, 5, 3), (3, 6, 5, 2), (0, 10, 3, 0), (0, 10, 3, 1)]
+    return _ts(10, [(1, 0)] * 3 + [(0, 1), (0, 2), (0, 2.5)], e,
+               [1, 4, 7, 8], [(0, 4), (1, 5), (2, 4), (3, 3)])
+
+
+def sample_parent_pieces():
+    """internal sample 3 is the parent of non-sample node 4 on [0,3) and [7,10); node 4 is
+    absent in between (its children attach to 3 directly)."""
+    return _ts(10, [(1, 0), (1, 0), (1, 0), (1, 2.0), (0, 1.0), (0, 3.0)],
+               [(0, 3, 4, 0), (0, 3, 4, 1), (7, 10, 4, 0), (7, 10, 4, 1),
+                (0, 3, 3, 4), (7, 10, 3, 4), (3, 7, 3, 0), (3, 7, 3, 1),
+                (0, 10, 5, 3), (0, 10, 5, 2)],
+               [1, 5, 8], [(0, 4), (1, 0), (2, 4)])
+
+
+S2["root_pieces"] = root_pieces
+S2["sample_parent_pieces"] = sample_parent_pieces
